@@ -592,6 +592,10 @@ def run_property(prop, spec, tier, seed0):
             viol_known.append(({"seed": c["seed"]}, {"clause": clause, "detail": sig}, k)); continue
         jobd = {"variant": c["_variant"]}
         plan, tries = minimise_crash(jobd, tier, c)
+        if plan is None and c["kind"] == "watchdog":
+            # the worker was stopped by the chunk's wall-clock limit (end of the budget, a loaded machine) while it ran this seed; alone the plan finishes: no hang
+            log("note: worker stopped by the wall-clock limit on seed %d of %s; the plan finishes when run alone (no hang)" % (c["seed"], c["_job"]))
+            continue
         if plan is None:
             log("harness failure: dead worker (%s) on seed %d of %s did not reproduce when run alone" % (sig, c["seed"], c["_job"]))
             log(c["stderr"][-1500:])
